@@ -58,10 +58,39 @@ def generate(rng, tier):
                 ["seg", gen.rand_segment(rng, regime, span=30, maxlen=25)]
             cases.append({"k": "call", "regime": regime, "dur": d * u, "step": s * u, "start": rng.randrange(-3, 4) * u,
                           "sup": sup, "align": rng.random() < 0.5})
+    # tolerance tier: decimal (non-dyadic) parameters as users write them (the library default is 30 ms / 10 ms)
+    steps = [0.01, 0.02, 0.016, 0.1, 0.25, 1 / 3, 0.005, 0.0125, 0.3]
+    for _ in range(3000 if tier == "thorough" else 400):
+        step = rng.choice(steps)
+        dur = rng.choice([step, 2.5 * step, 3 * step, 0.025, 0.03, 0.1, 1.0, step / 2])
+        start = rng.choice([0.0, 0.0, 0.5, -0.37, 100.2, 12.34])
+        n = rng.choice([1, 2, 7, 14, 28, 56, 57, 100, 333, 1000, rng.randrange(1, 400)])
+        end = None if rng.random() < 0.15 else start + n * step + rng.choice([0.0, 0.0, step / 2, -step / 2, 1e-9, -1e-9, dur])
+        if end is not None and end <= start:
+            end = start + step
+        idx = sorted({-2, -1, 0, 1, 2, n - 2, n - 1, n, n + 1, n + 5, rng.randrange(0, n + 1), rng.randrange(0, n + 1)})
+        ts = []
+        for _k in range(8):
+            i = rng.randrange(-3, n + 4)
+            ts.append(start + i * step + dur / 2 + rng.choice([0.0, step / 2, -step / 2, step / 2 + 1e-9, step / 2 - 1e-9,
+                                                                   rng.uniform(-step, step), 1e-10]))
+        cases.append({"k": "winf", "regime": "K0", "dur": float(dur).hex(), "step": float(step).hex(),
+                      "start": float(start).hex(), "end": None if end is None else float(end).hex(), "idx": idx,
+                      "ts": [float(x).hex() for x in ts],
+                      "r2s": [[i0, nn] for i0 in (0, 1, rng.randrange(2, n + 2), -2) for nn in (0, 1, rng.randrange(2, 60))]})
     kinds = {}
     for c in cases:
         kinds[c["k"]] = kinds.get(c["k"], 0) + 1
     return {"cases": cases, "meta": {"exhaustive": True, "kinds": kinds, "max_ticks_exhaustive": dmax}}
+
+
+def _fx(v):
+    """exact value of a binary64 in units of 2^-130"""
+    from fractions import Fraction
+    f = Fraction(float(v)) * (1 << 130)
+    if f.denominator != 1:
+        raise ValueError("float too small for the 2^-130 grid")
+    return int(f)
 
 
 def _queries(case):
@@ -78,8 +107,44 @@ def _queries(case):
     return idx, ts, r2s, segs, ds
 
 
+def _run_float(case):
+    import math
+    from pyannote.core import SlidingWindow
+    fl = float.fromhex
+    kw = dict(duration=fl(case["dur"]), step=fl(case["step"]), start=fl(case["start"]))
+    if case["end"] is not None:
+        kw["end"] = fl(case["end"])
+    w = SlidingWindow(**kw)
+    items = []
+    for i in case["idx"]:
+        x = w[i]
+        items.append([i, None if x is None else [_fx(x.start), _fx(x.end)]])
+    if case["end"] is not None:
+        ln = len(w)
+        if ln <= 2000:
+            it = list(w)
+            assert len(it) == ln, "len() differs from the number of iterated positions"
+            it2 = list(w)
+            assert it == it2, "a second iteration differs from the first"
+            for i in (0, 1, ln // 2, ln - 1):
+                if 0 <= i < ln:
+                    assert it[i] == w[i], "iteration and indexing disagree"
+    else:
+        ln = None
+    c = w.copy()
+    assert (c.duration, c.step, c.start) == (w.duration, w.step, w.start) and (c.end == w.end or (math.isinf(c.end) and math.isinf(w.end)))
+    closest = [[_fx(fl(t)), int(w.closest_frame(fl(t)))] for t in case["ts"]]
+    r2s = []
+    for i0, n in case["r2s"]:
+        sg = w.range_to_segment(i0, n)
+        r2s.append([[i0, n], [_fx(sg.start), _fx(sg.end)]])
+    return {"items": items, "len": ln, "closest": closest, "r2s": r2s}
+
+
 def run(case):
     from pyannote.core import SlidingWindow, Segment
+    if case["k"] == "winf":
+        return _run_float(case)
     tb = TB(case["regime"])
     tb.enter()
     try:
@@ -133,6 +198,13 @@ def encode(case, o):
     e = enc
     eps = REGIMES[case["regime"]]["eps"]
     k = case["k"]
+    if k == "winf":
+        fx = lambda h: _fx(float.fromhex(h))
+        items = e.lst([e.pair(e.z(i), e.opt(v, e.seg)) for i, v in o["items"]])
+        closest = e.lst([e.pair(e.z(a), e.z(b)) for a, b in o["closest"]])
+        r2s = e.lst([e.pair(e.pair(e.z(a[0]), e.z(a[1])), e.seg(b)) for a, b in o["r2s"]])
+        return (f"KWinF {e.z(fx(case['dur']))} {e.z(fx(case['step']))} {e.z(fx(case['start']))} "
+                f"{e.opt(None if case['end'] is None else fx(case['end']), e.z)} {items} {e.opt(o['len'], e.z)} {closest} {r2s}")
     geo = f"{e.z(case['dur'])} {e.z(case['step'])} {e.z(case['start'])}"
     if k == "ctor":
         return f"KCtor {geo} {e.opt(case['end'], e.z)} {e.b(o['ok'])}"
@@ -151,6 +223,8 @@ def encode(case, o):
 
 
 def nontrivial(case, o):
+    if case["k"] == "winf":
+        return case["end"] is not None
     return case["k"] != "ctor" and (case["dur"] != case["step"] or case.get("end") is not None)
 
 
